@@ -186,12 +186,30 @@ Definition run_old := run_with step_old.
 Definition thread_finished (th : thread) : bool :=
   match cur th, todo th with Idle, [] => true | _, _ => false end.
 
+(* a decidable test of completeness for concrete runs with n threads *)
+Definition finishedb (n : nat) (s : state) : bool :=
+  forallb (fun p => thread_finished (threads s p)) (seq 0 n).
+
 (* every thread has consumed its whole program and is back at the top of the loop *)
 Definition finished (s : state) : Prop := forall p, thread_finished (threads s p) = true.
 Definition complete (progs : list (list msg)) (sched : list tid) : Prop :=
   finished (run (init progs) sched).
 Definition complete_old (progs : list (list msg)) (sched : list tid) : Prop :=
   finished (run_old (init progs) sched).
+
+(* A coarser scheduler used by the harness when the sockets' recv is not a scheduling point:
+   receiving is thread-local, so a thread that is back at the top of the loop receives its next
+   message in the same grant.  Every run of it is a run of the fine-grained semantics
+   (Proofs/NodeQueue.v, eager_is_schedule). *)
+Definition eager (stp : state -> tid -> state) (s : state) (t : tid) : state :=
+  let s' := stp s t in
+  match cur (threads s' t), todo (threads s' t) with
+  | Idle, _ :: _ => stp s' t
+  | _, _ => s'
+  end.
+(* all n threads have received their first message *)
+Definition start_eager (stp : state -> tid -> state) (n : nat) (s : state) : state :=
+  fold_left stp (seq 0 n) s.
 
 (* ---------------------------------------------------------------------------------------- *)
 (* wire view (used by the extracted entry points and by GenProps/NodeGen.v)                   *)
